@@ -84,6 +84,25 @@ pub struct Arrival {
     pub bytes_len: usize,
 }
 
+pub struct Pending {
+    pub arr: Arrival,
+    pub req: CoapRequest<Ep>,
+    pub pending_err: Option<HandlingError>,
+    pub req_mid: u16,
+    pub req_token: Vec<u8>,
+    pub key: Key,
+    pub bytes: Vec<u8>,
+    pub from: Ep,
+    pub tag: Tag,
+    pub corrupted: bool,
+    pub net_dup: bool,
+}
+
+pub enum Step {
+    Done(Option<Vec<u8>>),
+    NeedsApp(Box<Pending>),
+}
+
 #[derive(Clone, Debug, Default)]
 pub struct ResSpec {
     /// body length per version for GET / FETCH (cycled)
@@ -355,6 +374,22 @@ impl Server {
 
     /// Processes one delivered datagram; returns the reply bytes, if any.
     pub fn on_datagram(&mut self, time: u64, from: Ep, tag: Tag, bytes: &[u8], corrupted: bool, net_dup: bool, stats: &mut Stats, trace: &mut Trace, shapes: &mut Vec<u64>) -> Option<Vec<u8>> {
+        match self.begin(time, from, tag, bytes, corrupted, net_dup, stats, trace, shapes) {
+            Step::Done(r) => r,
+            Step::NeedsApp(p) => self.finish(*p, time, stats, trace),
+        }
+    }
+
+    fn push(&mut self, mut arr: Arrival) {
+        arr.seq = self.log.len();
+        self.log.push(arr);
+    }
+
+    /// First phase: parse, from_packet, intercept_request.  If the request
+    /// has to go to the application the caller decides when (split-phase:
+    /// the application takes simulated time and other exchanges are
+    /// processed in between).
+    pub fn begin(&mut self, time: u64, from: Ep, tag: Tag, bytes: &[u8], corrupted: bool, net_dup: bool, stats: &mut Stats, trace: &mut Trace, shapes: &mut Vec<u64>) -> Step {
         let seq = self.log.len();
         trace.ev(1, from as u64, bytes);
         let mut arr = Arrival {
@@ -383,16 +418,16 @@ impl Server {
             bytes_len: bytes.len(),
         };
         if self.dead {
-            self.log.push(arr);
-            return None;
+            self.push(arr);
+            return Step::Done(None);
         }
         // ---- parse ----------------------------------------------------
         let parsed = if self.cfg.check_wire {
             match check_parse(bytes, stats, &mut self.violations, shapes) {
                 None => {
                     self.dead = true;
-                    self.log.push(arr);
-                    return None;
+                    self.push(arr);
+                    return Step::Done(None);
                 }
                 Some(r) => r,
             }
@@ -403,8 +438,8 @@ impl Server {
                         Violation::new("C03", "panic", format!("from_bytes panicked: {} on {}", msg, short(bytes))).with_sig(&format!("panic@{}", panic_site(&msg))),
                     );
                     self.dead = true;
-                    self.log.push(arr);
-                    return None;
+                    self.push(arr);
+                    return Step::Done(None);
                 }
                 Ok(r) => r.map_err(|_| ()),
             }
@@ -413,8 +448,8 @@ impl Server {
             Err(()) => {
                 stats.hit("srv.rejected-datagram");
                 trace.line(|| format!("t={} srv: datagram from ep{} rejected by from_bytes: {}", time, from, short(bytes)));
-                self.log.push(arr);
-                return None;
+                self.push(arr);
+                return Step::Done(None);
             }
             Ok(p) => p,
         };
@@ -443,8 +478,8 @@ impl Server {
             // not a request (empty message, response, reserved class): a
             // server ignores it
             stats.hit("srv.non-request");
-            self.log.push(arr);
-            return None;
+            self.push(arr);
+            return Step::Done(None);
         }
         arr.is_request = true;
         let key: Key = (arr.code, raw_path(&req.message));
@@ -466,8 +501,8 @@ impl Server {
                 );
                 trace.line(|| format!("t={} srv: intercept_request PANIC {}", time, msg));
                 self.dead = true;
-                self.log.push(arr);
-                return None;
+                self.push(arr);
+                return Step::Done(None);
             }
             Ok(Ok(true)) => arr.ireq = Some(HOut::Handled),
             Ok(Ok(false)) => arr.ireq = Some(HOut::Pass),
@@ -483,6 +518,21 @@ impl Server {
             self.check_c11_growth(&arr, before, after, pending_err.is_some(), stats);
         }
 
+        let p = Box::new(Pending { arr, req, pending_err, req_mid, req_token, key, bytes: bytes.to_vec(), from, tag, corrupted, net_dup });
+        if p.arr.ireq == Some(HOut::Pass) {
+            Step::NeedsApp(p)
+        } else {
+            Step::Done(self.finish(*p, time, stats, trace))
+        }
+    }
+
+    /// Second phase: application, intercept_response, error rendering,
+    /// serialisation of the reply.
+    pub fn finish(&mut self, p: Pending, time: u64, stats: &mut Stats, trace: &mut Trace) -> Option<Vec<u8>> {
+        let Pending { mut arr, mut req, mut pending_err, req_mid, req_token, key, bytes, from, tag, corrupted, net_dup } = p;
+        let bytes = &bytes[..];
+        let seq = self.log.len();
+        arr.time = arr.time.max(0);
         // ---- application + intercept_response ------------------------
         if arr.ireq == Some(HOut::Pass) {
             let call = self.app.handle(&mut req);
@@ -501,7 +551,7 @@ impl Server {
                     );
                     trace.line(|| format!("t={} srv: intercept_response PANIC {}", time, msg));
                     self.dead = true;
-                    self.log.push(arr);
+                    self.push(arr);
                     return None;
                 }
                 Ok(Ok(true)) => arr.iresp = Some(HOut::Handled),
@@ -530,7 +580,7 @@ impl Server {
                 Err(msg) => {
                     self.violations.push(Violation::new("C07", "error-result", format!("apply_from_error panicked: {}", msg)));
                     self.dead = true;
-                    self.log.push(arr);
+                    self.push(arr);
                     return None;
                 }
             };
@@ -596,7 +646,7 @@ impl Server {
             )
         });
         arr.reply = reply.clone();
-        self.log.push(arr);
+        self.push(arr);
         reply
     }
 
